@@ -1,8 +1,308 @@
-(* C02 proofs. *)
+(* C02 proofs, part 1: merge algebra (values), reason maps, association lists, queue invariant. *)
 From Coq Require Import List NArith Bool Lia.
-From V Require Import C02.Model.
+From V Require Import C02.Model C02.Spec.
 Import ListNotations.
 Open Scope N_scope.
 
-Lemma merge_forced a b : forced (merge_v a b) = forced a || forced b.
-Proof. reflexivity. Qed.
+(* ------------------------------------------------------------------ reason maps *)
+
+Lemma rcount_radd1 k k' v m : rcount k (radd1 k' v m) = rcount k m + (if k =? k' then v else 0).
+Proof.
+  induction m as [|[k0 v0] m IH]; cbn [radd1 rcount].
+  - lia.
+  - destruct (N.eqb_spec k' k0) as [->|Hne].
+    + cbn [rcount]. destruct (k =? k0); lia.
+    + destruct (k' <? k0).
+      * cbn [rcount]. destruct (k =? k'), (k =? k0); lia.
+      * cbn [rcount]. rewrite IH. destruct (k =? k'), (k =? k0); lia.
+Qed.
+
+Lemma rcount_rmerge k o : forall m, rcount k (rmerge m o) = rcount k m + rcount k o.
+Proof.
+  unfold rmerge. induction o as [|[k0 v0] o IH]; intros m; cbn [fold_left rcount fst snd].
+  - lia.
+  - rewrite IH, rcount_radd1. lia.
+Qed.
+
+Lemma rlen0_rcount r k : rlen0 r = true -> rcount k (rget r) = 0.
+Proof. unfold rlen0. destruct (rget r); [reflexivity|discriminate]. Qed.
+
+Lemma rcount_reason_merge k a b :
+  rcount k (rget (reason_merge a b)) = rcount k (rget a) + rcount k (rget b).
+Proof.
+  unfold reason_merge. destruct (rlen0 b) eqn:E.
+  - rewrite (rlen0_rcount b k E). lia.
+  - cbn [rget]. apply rcount_rmerge.
+Qed.
+
+Lemma rcount_reason_cm k a b :
+  rcount k (rget (reason_cm a b)) = rcount k (rget a) + rcount k (rget b).
+Proof.
+  unfold reason_cm. destruct (rlen0 a) eqn:Ea, (rlen0 b) eqn:Eb; cbn [andb rget];
+    try (rewrite !rcount_rmerge; cbn [rcount]; lia).
+  rewrite (rlen0_rcount a k Ea), (rlen0_rcount b k Eb). reflexivity.
+Qed.
+
+(* ------------------------------------------------------------------ sets *)
+
+Lemma bits_set_merge a b : bits (set_merge a b) = N.lor (bits a) (bits b).
+Proof. destruct a; cbn [set_merge bits]; [reflexivity|]. symmetry. apply N.lor_0_l. Qed.
+
+Lemma bits_cfg_cm a b : bits (cfg_cm a b) = N.lor (bits a) (bits b).
+Proof. destruct a, b; reflexivity. Qed.
+
+Lemma bits_len_cm a b : bits (len_cm a b) = N.lor (bits a) (bits b).
+Proof.
+  unfold len_cm, len0. destruct (N.eqb_spec (bits a) 0) as [Ha|Ha]; cbn [andb]; [|reflexivity].
+  destruct (N.eqb_spec (bits b) 0) as [Hb|Hb]; [|reflexivity].
+  rewrite Ha, Hb. reflexivity.
+Qed.
+
+(* the set is nil exactly when the code leaves it nil *)
+Lemma cfg_cm_nil a b : cfg_cm a b = None <-> a = None /\ b = None.
+Proof. destruct a, b; cbn; split; intros H; try discriminate; auto; destruct H; discriminate. Qed.
+
+(* ------------------------------------------------------------------ merge algebra on values *)
+
+Definition algebra (m a b : req) (p : option N) : Prop :=
+  bits (cfg m) = N.lor (bits (cfg a)) (bits (cfg b)) /\
+  bits (addr m) = N.lor (bits (addr a)) (bits (addr b)) /\
+  bits (wp m) = N.lor (bits (wp a)) (bits (wp b)) /\
+  forced m = (forced a || forced b)%bool /\
+  (forall k, rcount k (rget (reason m)) = rcount k (rget (reason a)) + rcount k (rget (reason b))) /\
+  start m = start a /\
+  push m = p.
+
+Lemma merge_algebra a b : algebra (merge_v a b) a b (newest (push a) (push b)).
+Proof.
+  unfold algebra, merge_v; cbn [cfg addr wp forced reason start push].
+  rewrite !bits_set_merge. repeat split; auto using rcount_reason_merge.
+Qed.
+
+Lemma copy_merge_algebra a b : algebra (copy_merge_v a b) a b (push b).
+Proof.
+  unfold algebra, copy_merge_v; cbn [cfg addr wp forced reason start push].
+  rewrite bits_cfg_cm, !bits_len_cm. repeat split; auto using rcount_reason_cm.
+Qed.
+
+Lemma copy_merge_newest a b : push b <> None -> push (copy_merge_v a b) = newest (push a) (push b).
+Proof. cbn. destruct (push b); [reflexivity|congruence]. Qed.
+
+Lemma copy_merge_newest_refuted :
+  exists a b, push (copy_merge_v a b) <> newest (push a) (push b).
+Proof.
+  exists (mkReq None None None None (Some 1) 1 false), (mkReq None None None None None 2 false).
+  cbn. discriminate.
+Qed.
+
+(* ------------------------------------------------------------------ association lists *)
+
+Section AssocLemmas.
+  Context {V : Type}.
+  Implicit Types (l : list (conn * V)).
+
+  Lemma alookup_aremove_same c l : alookup c (aremove c l) = None.
+  Proof.
+    unfold aremove. induction l as [|[c' v] l IH]; cbn; [reflexivity|].
+    destruct (N.eqb_spec c c'); cbn; [exact IH|].
+    destruct (N.eqb_spec c c'); [contradiction|exact IH].
+  Qed.
+
+  Lemma alookup_aremove_other c c' l : c <> c' -> alookup c' (aremove c l) = alookup c' l.
+  Proof.
+    intros Hne. unfold aremove. induction l as [|[c0 v] l IH]; cbn; [reflexivity|].
+    destruct (N.eqb_spec c c0) as [->|H0]; cbn.
+    - destruct (N.eqb_spec c' c0); [congruence|exact IH].
+    - destruct (N.eqb_spec c' c0); [reflexivity|exact IH].
+  Qed.
+
+  Lemma alookup_aset_same c v l : alookup c (aset c v l) = Some v.
+  Proof. unfold aset; cbn. now rewrite N.eqb_refl. Qed.
+
+  Lemma alookup_aset_other c c' v l : c <> c' -> alookup c' (aset c v l) = alookup c' l.
+  Proof.
+    intros Hne. unfold aset; cbn. destruct (N.eqb_spec c' c); [congruence|].
+    now apply alookup_aremove_other.
+  Qed.
+End AssocLemmas.
+
+(* ------------------------------------------------------------------ queue invariant *)
+
+Definition qinv (q : pq) : Prop :=
+  NoDup (queue q) /\
+  (forall c, In c (queue q) <-> alookup c (pending q) <> None) /\
+  (forall c, alookup c (processing q) <> None -> alookup c (pending q) = None).
+
+Lemma qinv_empty : qinv pq_empty.
+Proof.
+  repeat split; cbn; try constructor; try tauto; try congruence.
+Qed.
+
+Lemma nodup_snoc (l : list conn) c : NoDup l -> ~ In c l -> NoDup (l ++ [c]).
+Proof.
+  induction l as [|x l IH]; cbn; intros Hnd Hni.
+  - constructor; [tauto|constructor].
+  - inversion Hnd; subst. constructor.
+    + rewrite in_app_iff; cbn. intros [H|[H|[]]]; [contradiction|subst; tauto].
+    + apply IH; tauto.
+Qed.
+
+Lemma snoc_iff (l : list conn) c c' : In c' (l ++ [c]) <-> In c' l \/ c = c'.
+Proof. rewrite in_app_iff; cbn. tauto. Qed.
+
+Lemma qinv_enqueue q c r : qinv q -> qinv (enqueue q c r).
+Proof.
+  intros (Hnd & Hq & Hp). unfold enqueue.
+  destruct (down q); [split; [|split]; assumption|].
+  destruct (alookup c (processing q)) as [cur|] eqn:Epr.
+  - split; [|split]; cbn [queue pending processing]; [assumption|assumption|].
+    intros c' H. destruct (N.eq_dec c c') as [->|Hne].
+    + apply Hp. congruence.
+    + rewrite alookup_aset_other in H by exact Hne. now apply Hp.
+  - destruct (alookup c (pending q)) as [cur|] eqn:Epe.
+    + split; [|split]; cbn [queue pending processing]; [assumption| |].
+      * intros c'. destruct (N.eq_dec c c') as [->|Hne].
+        -- rewrite alookup_aset_same. split; [discriminate|]. intros _. apply Hq. congruence.
+        -- rewrite alookup_aset_other by exact Hne. apply Hq.
+      * intros c' H. destruct (N.eq_dec c c') as [->|Hne].
+        -- apply Hp in H. congruence.
+        -- rewrite alookup_aset_other by exact Hne. now apply Hp.
+    + assert (Hni : ~ In c (queue q)) by (intros H; apply Hq in H; congruence).
+      split; [|split]; cbn [queue pending processing].
+      * now apply nodup_snoc.
+      * intros c'. rewrite snoc_iff. destruct (N.eq_dec c c') as [->|Hne].
+        -- rewrite alookup_aset_same. split; [discriminate|auto].
+        -- rewrite alookup_aset_other by exact Hne. rewrite <- Hq. tauto.
+      * intros c' H. destruct (N.eq_dec c c') as [->|Hne]; [congruence|].
+        rewrite alookup_aset_other by exact Hne. now apply Hp.
+Qed.
+
+Lemma qinv_dequeue q : qinv q -> qinv (fst (dequeue q)).
+Proof.
+  intros (Hnd & Hq & Hp). unfold dequeue. destruct (queue q) as [|c rest] eqn:Eq; cbn [fst].
+  - unfold qinv. rewrite Eq. auto.
+  - inversion Hnd as [|? ? Hni Hnd']; subst.
+    split; [|split]; cbn [queue pending processing]; [assumption| |].
+    + intros c'. destruct (N.eq_dec c c') as [->|Hne].
+      * rewrite alookup_aremove_same. tauto.
+      * rewrite alookup_aremove_other by exact Hne. rewrite <- Hq. cbn. split; [auto|]. intros [H|H]; [congruence|exact H].
+    + intros c' H. destruct (N.eq_dec c c') as [->|Hne].
+      * apply alookup_aremove_same.
+      * rewrite alookup_aset_other in H by exact Hne. rewrite alookup_aremove_other by exact Hne. now apply Hp.
+Qed.
+
+Lemma qinv_mark_done q c : qinv q -> qinv (mark_done q c).
+Proof.
+  intros (Hnd & Hq & Hp). unfold mark_done.
+  assert (Hrest : forall c', alookup c' (aremove c (processing q)) <> None -> alookup c' (pending q) = None).
+  { intros c' H. destruct (N.eq_dec c c') as [->|Hne].
+    - now rewrite alookup_aremove_same in H.
+    - rewrite alookup_aremove_other in H by exact Hne. now apply Hp. }
+  destruct (alookup c (processing q)) as [[r|]|] eqn:Epr.
+  - assert (Hpe : alookup c (pending q) = None) by (apply Hp; congruence).
+    assert (Hni : ~ In c (queue q)) by (intros H; apply Hq in H; congruence).
+    split; [|split]; cbn [queue pending processing].
+    + now apply nodup_snoc.
+    + intros c'. rewrite snoc_iff. destruct (N.eq_dec c c') as [->|Hne].
+      * rewrite alookup_aset_same. split; [discriminate|auto].
+      * rewrite alookup_aset_other by exact Hne. rewrite <- Hq. tauto.
+    + intros c' H. destruct (N.eq_dec c c') as [->|Hne].
+      * now rewrite alookup_aremove_same in H.
+      * rewrite alookup_aset_other by exact Hne. now apply Hrest.
+  - split; [|split]; cbn [queue pending processing]; assumption.
+  - split; [|split]; cbn [queue pending processing]; assumption.
+Qed.
+
+Lemma qinv_qstep q o : qinv q -> qinv (fst (qstep q o)).
+Proof.
+  destruct o; cbn [qstep fst]; intros H.
+  - now apply qinv_enqueue.
+  - now apply qinv_dequeue.
+  - now apply qinv_mark_done.
+  - destruct H as (H1 & H2 & H3). split; [|split]; cbn [shutdown queue pending processing]; assumption.
+Qed.
+
+Lemma qlog_step_st l o : q_st (qlog_step l o) = fst (qstep (q_st l) o).
+Proof. unfold qlog_step. destruct (qstep (q_st l) o). reflexivity. Qed.
+
+Lemma fold_left_inv {A B} (f : A -> B -> A) (P : A -> Prop) :
+  (forall a b, P a -> P (f a b)) -> forall l a, P a -> P (fold_left f l a).
+Proof. intros H l. induction l; cbn; auto. Qed.
+
+Lemma qinv_qrun ops : qinv (q_st (qrun ops)).
+Proof.
+  unfold qrun. apply (fold_left_inv qlog_step (fun l => qinv (q_st l))).
+  - intros l o H. rewrite qlog_step_st. now apply qinv_qstep.
+  - exact qinv_empty.
+Qed.
+
+(* one push in flight per connection: what Dequeue returns is not in [processing], and it carries a request *)
+Lemma dequeue_not_in_flight q q' c r :
+  qinv q -> dequeue q = (q', DItem c r) -> alookup c (processing q) = None /\ r <> None.
+Proof.
+  intros (Hnd & Hq & Hp). unfold dequeue. destruct (queue q) as [|c0 rest] eqn:Eq.
+  - destruct (down q); discriminate.
+  - intros H. injection H as <- <- <-.
+    assert (Hpe : alookup c0 (pending q) <> None) by (apply Hq; now left).
+    split; [|exact Hpe].
+    destruct (alookup c0 (processing q)) eqn:E; [|reflexivity].
+    exfalso. apply Hpe, Hp. congruence.
+Qed.
+
+(* an Enqueue that arrives while c is in flight is re-queued by MarkDone, merged *)
+Lemma enqueue_during_processing q c cur r :
+  down q = false -> alookup c (processing q) = Some cur ->
+  let q' := mark_done (enqueue q c r) c in
+  alookup c (pending q') = copy_merge_o cur (Some r) /\ In c (queue q') /\ alookup c (processing q') = None.
+Proof.
+  intros Hd Hpr. unfold enqueue. rewrite Hd, Hpr. unfold mark_done; cbn [processing].
+  rewrite alookup_aset_same.
+  destruct cur as [x|]; cbn [copy_merge_o pending queue processing];
+    rewrite alookup_aset_same, alookup_aremove_same, in_app_iff; cbn; auto.
+Qed.
+
+(* FIFO service: the connection at position n of the queue is returned by the (n+1)-th Dequeue *)
+Fixpoint deq_n (n : nat) (q : pq) : pq := match n with O => q | S n' => deq_n n' (fst (dequeue q)) end.
+
+Lemma dequeue_serves_position : forall n q c,
+  qinv q -> nth_error (queue q) n = Some c ->
+  exists r, snd (dequeue (deq_n n q)) = DItem c (Some r) /\ alookup c (pending q) = Some r.
+Proof.
+  induction n as [|n IH]; intros q c Hinv Hn.
+  - cbn [deq_n]. unfold dequeue. destruct (queue q) as [|c0 rest] eqn:Eq; [discriminate|].
+    cbn in Hn. injection Hn as ->. cbn [snd].
+    destruct Hinv as (_ & Hq & _).
+    destruct (alookup c (pending q)) as [r|] eqn:E.
+    + now exists r.
+    + exfalso. assert (In c (queue q)) by (rewrite Eq; now left). apply Hq in H. congruence.
+  - cbn [deq_n]. pose proof (qinv_dequeue q Hinv) as Hinv'.
+    unfold dequeue in *. destruct (queue q) as [|c0 rest] eqn:Eq; [discriminate|].
+    cbn [fst] in *. cbn in Hn.
+    destruct (IH _ c Hinv') as (r & H1 & H2); [exact Hn|].
+    exists r. split; [exact H1|].
+    cbn [pending] in H2.
+    destruct (N.eq_dec c0 c) as [->|Hne].
+    + now rewrite alookup_aremove_same in H2.
+    + now rewrite alookup_aremove_other in H2 by exact Hne.
+Qed.
+
+(* isolation inside the queue: an operation on c leaves what is stored for any other connection untouched *)
+Lemma enqueue_isolation q c r c' :
+  c <> c' ->
+  alookup c' (pending (enqueue q c r)) = alookup c' (pending q) /\
+  alookup c' (processing (enqueue q c r)) = alookup c' (processing q).
+Proof.
+  intros Hne. unfold enqueue. destruct (down q); [auto|].
+  destruct (alookup c (processing q)); cbn [pending processing].
+  - now rewrite alookup_aset_other.
+  - destruct (alookup c (pending q)); cbn [pending processing]; now rewrite alookup_aset_other.
+Qed.
+
+Lemma mark_done_isolation q c c' :
+  c <> c' ->
+  alookup c' (pending (mark_done q c)) = alookup c' (pending q) /\
+  alookup c' (processing (mark_done q c)) = alookup c' (processing q).
+Proof.
+  intros Hne. unfold mark_done. destruct (alookup c (processing q)) as [[r|]|]; cbn [pending processing];
+    rewrite ?alookup_aset_other, ?alookup_aremove_other by exact Hne; auto.
+Qed.
